@@ -47,6 +47,11 @@ def gen_reacts(rng, nh, curh_known=None):
         else:
             act = ['raisesw', rng.randrange(nh), rng.random() < 0.3, rng.random() < 0.3]
         rs.append([kind, act])
+    # a quit_loop performed while the loop is switching would hand a 'quit' reaction
+    # that switches the K10 pattern: never on purpose
+    if any(k in ('load', 'in') and a[0] == 'quitloop' for k, a in rs):
+        rs = [[k, (['quit'] if k == 'quit' and a[0] in ('switch', 'raisesw') else a)]
+              for k, a in rs]
     return rs
 
 
